@@ -100,7 +100,7 @@ _GC_C05 = ['proofs::o05_4_marks_cleared', 'proofs::o05_4_temp_root_survives', 'p
 _GC_C09 = ['proofs::o09_intern_twice', 'proofs::o09_intern_across_collection']
 PROPS['C20'] = dict(
   level='proof',
-  verus=[dict(unit='gcglue', min_functions=7)],
+  verus=[dict(unit='gcglue', min_functions=7), dict(unit='ncall', min_functions=2)],
   kani=[dict(crate='heap', harnesses=_HEAP_COMPLETE, kind='complete', assumption_ids=['A-kani']),
         dict(crate='heap', harnesses=_HEAP_BOUNDED, kind='bounded', bound='string <= 3 bytes, tuple <= 3 elements, list/vector len <= 2 cap <= 4, array <= 3, unwind 8', assumption_ids=['A-kani', 'A-bound']),
         dict(crate='gc', harnesses=_GC_BOUNDED, kind='bounded', bound='one LyBox, one or two collections, unwind 4', timeout=2400, jobs=4,
@@ -111,7 +111,7 @@ PROPS['C20'] = dict(
 
 PROPS['C05'] = dict(
   level='proof',
-  verus=[dict(unit='gctrace', min_functions=34), dict(unit='klass', min_functions=2), dict(unit='gcglue', min_functions=8), dict(unit='cachetrace', min_functions=1)],
+  verus=[dict(unit='gctrace', min_functions=34), dict(unit='klass', min_functions=2), dict(unit='gcglue', min_functions=8), dict(unit='cachetrace', min_functions=1), dict(unit='ncall', min_functions=2)],
   kani=[dict(crate='trace', harnesses=['proofs::o05_2_dispatch_%s' % k for k in ['channel', 'class', 'closure', 'enumerator', 'fun', 'instance', 'list', 'method', 'native', 'string', 'lybox', 'tuple']],
              kind='bounded', bound='12 of 13 object kinds (Map excluded: generic impl cannot be stubbed), one raw object per kind, unwind 15', timeout=1200, jobs=4, mem_gb=12, assumption_ids=['A-kani', 'A-stub', 'A-bound']),
         dict(crate='gc', harnesses=_GC_C05, kind='bounded', bound='one LyBox, one or two collections, unwind 4', timeout=2400, jobs=3, assumption_ids=['A-kani', 'A-stub', 'A-bound'])],
